@@ -1111,7 +1111,8 @@ bool TypeChecker::checkAssignmentExpression(expression_t expr)
         return false;
     }
 
-    if (expr.get_kind() != FUN_CALL_EXT && (expr.get_kind() != CONSTANT || expr.get_value() != 1)) {
+    if (expr.get_kind() != FUN_CALL_EXT &&
+        (expr.get_kind() != CONSTANT || !expr.get_type().is_integral() || expr.get_value() != 1)) {
         checkIgnoredValue(expr);
     }
 
